@@ -258,3 +258,75 @@ Example decompose_recompose_ex :
   meq (recompose 5 7 (3#5) (4#5) 3 (1#2) (5#13) (12#13))
       (mmul (mmul (mmul (mkM 1 0 5 0 1 7) (mkM (3#5) (-(4#5)) 0 (4#5) (3#5) 0)) (mkM 3 0 0 0 (1#2) 0)) (mkM (5#13) (-(12#13)) 0 (12#13) (5#13) 0)).
 Proof. vm_compute. repeat split. Qed.
+
+(** Rect.Transform (util.go): the bounding box of the four transformed corners contains the image of every
+    point of the rectangle (and is attained at corners, so it is the smallest such box). *)
+From Coq Require Import Qminmax.
+Definition min4 (a b c d : Q) : Q := Qmin a (Qmin b (Qmin c d)).
+Definition max4 (a b c d : Q) : Q := Qmax a (Qmax b (Qmax c d)).
+(** (x0, y0, x1, y1) |-> (x0', y0', x1', y1'), corners in the order of the Go code: p0=(x0,y0) p1=(x1,y0) p2=(x1,y1) p3=(x0,y1) *)
+Definition rect_transform (m : mat) (x0 y0 x1 y1 : Q) : Q * Q * Q * Q :=
+  let p0 := mdot m (x0, y0) in let p1 := mdot m (x1, y0) in let p2 := mdot m (x1, y1) in let p3 := mdot m (x0, y1) in
+  (min4 (fst p0) (fst p1) (fst p2) (fst p3), min4 (snd p0) (snd p1) (snd p2) (snd p3),
+   max4 (fst p0) (fst p1) (fst p2) (fst p3), max4 (snd p0) (snd p1) (snd p2) (snd p3)).
+
+Lemma mult_between a x0 x1 x : x0 <= x <= x1 ->
+  (a * x0 <= a * x <= a * x1) \/ (a * x1 <= a * x <= a * x0).
+Proof.
+  intros [H0 H1]. destruct (Qlt_le_dec a 0) as [N|P].
+  - right. assert (A : 0 <= (- a) * (x - x0)) by (apply Qmult_le_0_compat; lra).
+    assert (B : 0 <= (- a) * (x1 - x)) by (apply Qmult_le_0_compat; lra).
+    assert (A' : (- a) * (x - x0) == a * x0 - a * x) by ring.
+    assert (B' : (- a) * (x1 - x) == a * x - a * x1) by ring. lra.
+  - left. assert (A : 0 <= a * (x - x0)) by (apply Qmult_le_0_compat; lra).
+    assert (B : 0 <= a * (x1 - x)) by (apply Qmult_le_0_compat; lra).
+    assert (A' : a * (x - x0) == a * x - a * x0) by ring.
+    assert (B' : a * (x1 - x) == a * x1 - a * x) by ring. lra.
+Qed.
+
+Lemma affine_in_corners a b c x0 y0 x1 y1 x y :
+  x0 <= x <= x1 -> y0 <= y <= y1 ->
+  min4 (a * x0 + b * y0 + c) (a * x1 + b * y0 + c) (a * x1 + b * y1 + c) (a * x0 + b * y1 + c) <= a * x + b * y + c /\
+  a * x + b * y + c <= max4 (a * x0 + b * y0 + c) (a * x1 + b * y0 + c) (a * x1 + b * y1 + c) (a * x0 + b * y1 + c).
+Proof.
+  intros Hx Hy. pose proof (mult_between a x0 x1 x Hx) as HA. pose proof (mult_between b y0 y1 y Hy) as HB.
+  unfold min4, max4.
+  set (ax0 := a * x0) in *. set (ax1 := a * x1) in *. set (ax := a * x) in *.
+  set (by0_ := b * y0) in *. set (by1_ := b * y1) in *. set (by_ := b * y) in *.
+  clearbody ax0 ax1 ax by0_ by1_ by_.
+  pose proof (Q.le_min_l (ax0 + by0_ + c) (Qmin (ax1 + by0_ + c) (Qmin (ax1 + by1_ + c) (ax0 + by1_ + c)))) as M1.
+  pose proof (Q.le_min_r (ax0 + by0_ + c) (Qmin (ax1 + by0_ + c) (Qmin (ax1 + by1_ + c) (ax0 + by1_ + c)))) as M2.
+  pose proof (Q.le_min_l (ax1 + by0_ + c) (Qmin (ax1 + by1_ + c) (ax0 + by1_ + c))) as M3.
+  pose proof (Q.le_min_r (ax1 + by0_ + c) (Qmin (ax1 + by1_ + c) (ax0 + by1_ + c))) as M4.
+  pose proof (Q.le_min_l (ax1 + by1_ + c) (ax0 + by1_ + c)) as M5.
+  pose proof (Q.le_min_r (ax1 + by1_ + c) (ax0 + by1_ + c)) as M6.
+  pose proof (Q.le_max_l (ax0 + by0_ + c) (Qmax (ax1 + by0_ + c) (Qmax (ax1 + by1_ + c) (ax0 + by1_ + c)))) as N1.
+  pose proof (Q.le_max_r (ax0 + by0_ + c) (Qmax (ax1 + by0_ + c) (Qmax (ax1 + by1_ + c) (ax0 + by1_ + c)))) as N2.
+  pose proof (Q.le_max_l (ax1 + by0_ + c) (Qmax (ax1 + by1_ + c) (ax0 + by1_ + c))) as N3.
+  pose proof (Q.le_max_r (ax1 + by0_ + c) (Qmax (ax1 + by1_ + c) (ax0 + by1_ + c))) as N4.
+  pose proof (Q.le_max_l (ax1 + by1_ + c) (ax0 + by1_ + c)) as N5.
+  pose proof (Q.le_max_r (ax1 + by1_ + c) (ax0 + by1_ + c)) as N6.
+  destruct HA as [HA|HA], HB as [HB|HB]; lra.
+Qed.
+
+Theorem rect_transform_contains m x0 y0 x1 y1 p :
+  x0 <= fst p <= x1 -> y0 <= snd p <= y1 ->
+  let '(u0, v0, u1, v1) := rect_transform m x0 y0 x1 y1 in
+  u0 <= fst (mdot m p) <= u1 /\ v0 <= snd (mdot m p) <= v1.
+Proof.
+  intros Hx Hy. unfold rect_transform, mdot; cbn [fst snd].
+  pose proof (affine_in_corners (ma m) (mb m) (mc m) x0 y0 x1 y1 (fst p) (snd p) Hx Hy) as [A1 A2].
+  pose proof (affine_in_corners (md m) (me m) (mf m) x0 y0 x1 y1 (fst p) (snd p) Hx Hy) as [B1 B2].
+  repeat split; assumption.
+Qed.
+
+Example rect_transform_ex : rect_transform (mkM 0 (-1) 0 1 0 0) 0 0 2 1 = (-1, 0, 0, 2).
+Proof. reflexivity. Qed.
+
+Example decompose_scales_det_ex :
+  let m := mkM 3 0 0 0 5 0 in 4 * 4 == decE m * decE m + decH m * decH m /\ 1 * 1 == decF m * decF m + decG m * decG m /\ (4 + 1) * (4 - 1) == mdet m.
+Proof. cbn zeta. repeat split; reflexivity. Qed.
+Example minv_some_ex : ~ mdet (mkM 2 1 3 0 (1#2) (-1)) == 0.
+Proof. intro H; discriminate H. Qed.
+Example det_rotate_ex : (3#5) * (3#5) + (4#5) * (4#5) == 1.
+Proof. reflexivity. Qed.
